@@ -32,11 +32,15 @@ def joinNat (xs : List Nat) : String :=
 /-- States in which the real engine's reads are scheduling-dependent (finding
 C03-inflight-hides-published): an in-flight segment without files next to segment
 directories on disk. Such reads are excluded from the comparison on both sides. -/
-def racy (s : Shard) : Bool :=
-  s.jobs.any (fun j => j.step == 0) && !s.segs.isEmpty
+def racy (s : Shard) (ntypes : Nat) : Bool :=
+  if ntypes ≤ 1 then s.jobs.any (fun j => j.step == 0) && !s.segs.isEmpty
+  else
+    -- with several event types an in-flight segment lacks the files of the types it does not
+    -- hold even after it is written: any in-flight job next to directories on disk is racy
+    !s.jobs.isEmpty && !s.segs.isEmpty
 
 def showRead (s : Shard) (ntypes : Nat) : String :=
-  if racy s then "racy" else
+  if racy s ntypes then "racy" else
   s!"keys={joinNat (sortNat (visibleKeys s))} count={countAllTypes s ntypes}"
 
 def showLs (s : Shard) : String :=
